@@ -40,6 +40,8 @@ pub fn shape_of(rd: &Rendered, step: u8) -> u64 {
 
 /// Judge one document for the context's property.
 pub fn judge_one(ctx: &mut Ctx, rd: &Rendered, sp: &Sp, cfg: &Cfg, step: u8, gen_name: &str) {
+    // the same configuration step read off different clocks (fractional seconds, other zone)
+    let cfg = &if gen_name == "replay" { cfg.clone() } else { vary_cfg(cfg, step, hash64(&[rd.text.as_bytes()])) };
     if judge::recognition_in_dispute(&rd.text, sp) {
         ctx.skip("tag recognition in dispute on this rendering (KF-C08)");
         return;
@@ -200,6 +202,66 @@ pub fn run(ctx: &mut Ctx) {
     let is_c04 = ctx.prop == "C04";
     let scale: u64 = if quick { 8 } else { 80 };
 
+    // ---- C04 through the binary: files in which the reference evaluation finds nothing ready must
+    // come out byte for byte (file -> stdout, stdin -> stdout, --output to another / the same file),
+    // also with a byte-order mark, CRLF line ends, no final line break
+    if is_c04 {
+        let bin = std::env::var("CV_CLI_BIN").unwrap_or_default();
+        if !bin.is_empty() && std::path::Path::new(&bin).exists() {
+            let dir = format!("{}/c04-{shard}", std::env::var("CV_TMP").unwrap_or_else(|_| "/verif/build/tmp".into()));
+            if std::fs::create_dir_all(&dir).is_ok() {
+                let total = 40_000 * scale;
+                for i in (shard..total).step_by(n as usize) {
+                    if ctx.past(0.12) {
+                        break;
+                    }
+                    let (rd, sp) = gen_ast_doc(seed, 12, i, i % 2 == 0, true);
+                    if [&sp.ds, &sp.de, &sp.tl, &sp.mk].iter().any(|s| s.starts_with('-') || s.contains('\0')) {
+                        continue;
+                    }
+                    if judge::recognition_in_dispute(&rd.text, &sp) || !judge::spans_consistent(&rd, &sp) {
+                        continue;
+                    }
+                    if crate::oracle::extents(&rd, STEP).map(|e| !e.is_empty()).unwrap_or(true) {
+                        continue;
+                    }
+                    let t = rd.text;
+                    let text = match (i / 2) % 8 {
+                        1 => format!("\u{feff}{t}"),
+                        2 => t.replace('\n', "\r\n"),
+                        3 => t.trim_end_matches('\n').to_string(),
+                        4 => format!("\u{feff}{}", t.replace('\n', "\r\n")),
+                        5 => format!("\n\n{t}"),
+                        6 => format!("{t}\n\n \t\n  "),
+                        7 => format!("{t}\u{feff}"),
+                        _ => t,
+                    };
+                    // the decoration may have changed the tags (a CR inside a multi-line tag turns `skip`
+                    // into `skip\r`): the reference must still find nothing ready in the final text
+                    let cfg_i = step_cfg_var(STEP, i / 16);
+                    match admit(&text, &sp, &cfg_i) {
+                        Ok(rd2) if crate::oracle::extents(&rd2, 1).map(|e| e.is_empty()).unwrap_or(false) => {}
+                        _ => {
+                            ctx.skip("cli-passthrough: decorated text not admitted / something ready");
+                            continue;
+                        }
+                    }
+                    let c = super::cli::Case {
+                        text,
+                        default_spelling: sp == Sp::new("<!-- <", "> -->", "time-limited", "removal-marker"),
+                        sp,
+                        cfg: cfg_i,
+                        passthrough: true,
+                    };
+                    let variant = (i / 16) % 6 + 6 * ((i / 96) % 24);
+                    super::cli::judge_case(ctx, &bin, &dir, &c, super::cli::Mode::Clean, variant, "cli-passthrough", false);
+                }
+                let _ = std::fs::remove_dir_all(&dir);
+            }
+        } else {
+            ctx.count("cli-leg-unavailable (CV_CLI_BIN not built)");
+        }
+    }
     // ---- A: block documents
     let total = 120_000 * scale;
     for i in (shard..total).step_by(n as usize) {
